@@ -16,6 +16,13 @@ def main():
         more = None
     if more is not None:
         info.update(more.main(gen_lean, gen_json))
+    # property packages register translators as tools/extract/x_<name>.py with main(gen_lean, gen_json)
+    import importlib
+    here = os.path.dirname(os.path.abspath(__file__))
+    for f in sorted(os.listdir(here)):
+        if f.startswith('x_') and f.endswith('.py'):
+            m = importlib.import_module('tools.extract.' + f[:-3])
+            info.update(m.main(gen_lean, gen_json) or {})
     return info
 
 
